@@ -53,6 +53,12 @@ def _wrap(kind, v):
         return v
     if kind == "list":
         return [v]
+    if kind == "tuple":
+        return (v,)
+    if kind == "nested":
+        return [[v]]
+    if kind == "series":
+        return pd.Series([v], dtype=object)
     a = np.empty(1, dtype=object)
     a[0] = v
     return a
@@ -95,6 +101,9 @@ ENCODINGS = {
 }
 
 
+MIXED_CONTAINERS = (("list", "plain"), ("plain", "list"), ("tuple", "list"), ("nested", "list"), ("array", "plain"), ("series", "tuple"))
+
+
 def body_concrete_encodings(ctx, det, enc, container, N):
     """agreement pattern symbolic (one fork per sample), label values concrete Python / numpy objects of the given
     type: guards against code that dispatches on the label's type (which an opaque proxy cannot exercise)"""
@@ -114,7 +123,13 @@ def body_concrete_encodings(ctx, det, enc, container, N):
         if enc == "mixedtypes" and not agree:
             b = vals[(i % len(vals)) ^ 1]  # the other spelling of the same value
         A.update(1, 1 if agree else 0)
-        B.update(_wrap(container, a), _wrap(container, b))
+        if container == "mixed":
+            # a different presentation of the single observation for each of the two labels: code that compares the raw
+            # arguments (a list is never equal to a scalar or a tuple) instead of the validated values would see a mismatch
+            ca, cb = MIXED_CONTAINERS[i % len(MIXED_CONTAINERS)]
+            B.update(_wrap(ca, a), _wrap(cb, b))
+        else:
+            B.update(_wrap(container, a), _wrap(container, b))
         sa = {k: v for k, v in vars(A).items() if k != "_bucket_row_list"}
         sb = {k: v for k, v in vars(B).items() if k != "_bucket_row_list"}
         ctx.prove(states_equal(ctx, sa, sb), "concrete-encoding-same-agreement-same-state")
@@ -255,6 +270,9 @@ def jobs(tier):
             out.append(Job(f"encoding-{det}-{enc}", "checks.c16:body_concrete_encodings",
                            {"det": det, "enc": enc, "container": cont, "N": 6 if q else 8}, expect=("compared",),
                            opts={"validate": 0}))
+        out.append(Job(f"encoding-{det}-mixed-containers", "checks.c16:body_concrete_encodings",
+                       {"det": det, "enc": "multiclass", "container": "mixed", "N": 6 if q else 8}, expect=("compared",),
+                       opts={"validate": 0}))
     out.append(Job("agree-ADWINAccuracy", "checks.c16:body_adwinacc", {"N": 6 if q else 8}, expect=("compared",),
                    opts={"validate": 0}))
     for kind in ("bool", "npbool", "npint8", "mixed"):
